@@ -179,9 +179,16 @@ func runC13(r *Run) {
 		}})
 	}
 	// ---- a whole query round: the accepted equalities -----------------------------------------------
-	cases = append(cases, fieldCase{name: "verifyQueryRound[test_circuit]", acceptReplay: func() string { return friAcceptReplay(r) }, bound: "real shape of test_circuit (258+2 opened polynomials, two arity-16 steps, 16 final coefficients); every leaf value, opening, challenge and the query index symbolic; Merkle checks excluded (C12)", build: func(fc *fctx) ([]frontend.Variable, []*ref.N) {
+	var realRound fieldCase
+	realRound = fieldCase{name: "verifyQueryRound[test_circuit]", acceptReplay: func() string {
+		if s := friAcceptReplay(r); s != "" {
+			return s
+		}
+		return friRecordReplay(realRound, r)
+	}, bound: "real shape of test_circuit (258+2 opened polynomials, two arity-16 steps, 16 final coefficients); every leaf value, opening, challenge and the query index symbolic; Merkle checks excluded (C12)", build: func(fc *fctx) ([]frontend.Variable, []*ref.N) {
 		return queryRoundCase(fc, base, r)
-	}})
+	}}
+	cases = append(cases, realRound)
 	// synthetic shapes with other numbers of reduction steps (the real proofs all have two)
 	nsteps := []int{3}
 	if r.Thorough() {
